@@ -61,7 +61,7 @@ def scenario(ctx, sid, seed, size, nested, with_prev, call, k, action):
         others = {}
         for n in ('before.bin', 'zz-after.bin'):
             p = os.path.join(d, n)
-            c = hist.content(hash(n) % 1000, 5000)
+            c = hist.content({'before.bin': 501, 'zz-after.bin': 502}[n], 5000)
             open(p, 'wb').write(c)
             others[p] = c
         # a later item holds an untouched copy of the victim's original bytes: it must come back intact whatever
@@ -69,6 +69,13 @@ def scenario(ctx, sid, seed, size, nested, with_prev, call, k, action):
         copyp = os.path.join(w.items[1], 'copy-of-victim')
         open(copyp, 'wb').write(orig)
         others[copyp] = orig
+        if with_prev and size > 1:
+            # prefixes of the victim are already stored in the group (previous backup): a victim cut down to one of them
+            # during the hashing pass is deduplicated by its hash
+            for nm, cut in (('half-of-victim', size // 2), ('minus1-of-victim', size - 1)):
+                pp = os.path.join(w.items[1], nm)
+                open(pp, 'wb').write(orig[:cut])
+                others[pp] = orig[:cut]
         if with_prev:
             r0 = w.backup(advance=10)
             if r0.rc != 0:
@@ -185,9 +192,11 @@ def check(ctx):
     sizes = [4096, 70000] if ctx.tier == 'quick' else SIZES
     for size in sizes:
         for nested in ((True,) if ctx.tier == 'quick' else (True, False)):
-            for with_prev in ((False,) if ctx.tier == 'quick' else (False, True)):
+            for with_prev in (False, True):
                 for call, ks in (('lstat', [1]), ('open', [1]), ('fstat', [1]), ('read', list(range(1, 26)))):
                     for k in ks:
+                        if ctx.tier == 'quick' and with_prev and not (call == 'read' and k <= 4):
+                            continue        # (quick: with a previous backup only the first reads of the hashing pass)
                         acts = ACTIONS if (ctx.tier == 'thorough' or k <= 3 or k % 4 == 0) else ACTIONS[:3]
                         for a in acts:
                             plans.append((sid, size, nested, with_prev, call, k, a))
